@@ -88,6 +88,9 @@ printf 'hello world\n' > content.txt
 head -c 300 /dev/zero | tr '\0' 'x' > content300.txt
 : > empty.txt
 S="openssl cms -sign -binary -outform DER"
+printf '\004\036ZZZZZZZZZZZZZZZZZZZZZZZZZZZZZZ' > octets.bin
+$S -in octets.bin -signer rsa2048.crt -inkey rsa2048.key -nodetach -out rsa_octet_string_run.der
+$S -in octets.bin -signer ec.crt -inkey ec.key -nodetach -noattr -out ec_octet_string_run_noattr.der
 $S -in content.txt -signer rsa2048.crt -inkey rsa2048.key -nodetach -out rsa_attrs.der
 $S -in content.txt -signer rsa2048.crt -inkey rsa2048.key -nodetach -noattr -out rsa_noattr.der
 $S -in content.txt -signer rsa2048.crt -inkey rsa2048.key -out rsa_detached.der
